@@ -138,4 +138,50 @@ let () =
         g.(c1).(c2) <- coq_Qplus g.(c1).(c2) (coq_Qmult (unbox v1) (unbox v2))) r) r) p.Crs.rows;
     for i = 0 to m - 1 do for j = 0 to m - 1 do
       if not (le (qabs (coq_Qminus g.(i).(j) (if i = j then one else zero))) tol) then ok := false done done;
+    (* the blocks of Bnew are upper triangular: qr.R(i,j) returns a literal zero for j < i *)
+    for r = 0 to m - 1 do for c = 0 to cols - 1 do
+      if c < r mod cols && Big_int_Z.sign_big_int bnew.(r * cols + c).coq_Qnum <> 0 then ok := false done done;
     ignore n; verdict !ok)
+
+(* ---- near-null space with the modelled QR (TentativeQr.v): exact tie of tentative_prolongation.hpp
+   (QR<double> in the code, so the case lines are the d. ones of the double build; on the "dyadic exact"
+   family every double operation is exact and the outputs must be byte-identical) ---- *)
+let rec chunks k = function
+  | [] -> []
+  | l -> let rec take n acc = function
+           | x :: tl when n > 0 -> take (n - 1) (x :: acc) tl
+           | rest -> (List.rev acc, rest) in
+         let (h, rest) = take k [] l in h :: chunks k rest
+let ns_args t =
+  let _n = t_i t in let naggr = t_i t in let id = t_zvec t in let bs = t_i t in let cols = t_i t in
+  let b = chunks cols (t_vec t) in (naggr, id, bs, cols, b)
+let () =
+  reg "d.tentative_ns" (fun t -> let (naggr, id, bs, cols, b) = ns_args t in
+    let (p, rs) = TentativeQr.tentative_prolongation_qr sc bs cols naggr id b [] in
+    show_crs p ^ " " ^ show_vec (List.concat (List.concat rs)));
+  (* per aggregate: 1 if some step with more than one row left has tau = 0 (x = 0) or tau = 1 (alpha = 0):
+     there the sign convention of the reflector is decided by an exact zero test, and a binary64 run may
+     legitimately return the column of Q / row of R with the other sign *)
+  reg "ns_hazard" (fun t -> let (naggr, id, bs, cols, b) = ns_args t in
+    let nba = if bs = 0 then 0 else naggr / bs in
+    let zero = box (parse_q "0") and one = box (parse_q "1") in
+    let eq a b = sc.Scalar.seqb a b in
+    show_ivec (List.init nba (fun i ->
+      let mem = Tentative.members bs id i in
+      let bp = List.map (Tentative.mrow sc b) mem in
+      let d = List.length bp in
+      let ((_, tau), _) = Qr.qr_factorize sc d cols 1 d (TentativeQr.gather_cm sc cols bp) (zeros (d * cols)) in
+      let h = ref 0 in
+      List.iteri (fun k tk -> if d - k > 1 && (eq tk zero || eq tk one) then h := 1) tau;
+      !h)));
+  (* exact oracles on a (P, Bnew) pair: P Bnew = B on aggregated rows, P^T P = I, blocks of Bnew upper triangular *)
+  reg "o.ns_exact" (fun t -> let (_naggr, id, _bs, cols, b) = ns_args t in
+    let p = t_crs t in let bnew = t_vec t in
+    let rs = List.map (chunks cols) (chunks (cols * cols) bnew) in
+    let zero = box (parse_q "0") in
+    let upper = List.for_all (fun blk -> List.for_all (fun x -> x)
+        (List.concat (List.mapi (fun r row -> List.mapi (fun c v -> c >= r || sc.Scalar.seqb v zero) row) blk))) rs in
+    if not (TentativeQr.ns_reproduces_ok sc cols id b p rs) then "FAIL reproduces"
+    else if not (TentativeQr.ns_orthonormal_ok sc p) then "FAIL orthonormal"
+    else if not upper then "FAIL upper"
+    else "OK")
